@@ -178,9 +178,11 @@ type client struct {
 	sentM sync.Mutex // protects sent
 	sent  map[uint32]hrpc.Call
 
-	// inFlight is number of rpcs sent to regionserver awaiting response
+	// inFlight is number of rpcs sent to regionserver awaiting response.
+	// It's signed because the response to a request can be processed
+	// (inFlightDown) before the sender gets to count it (inFlightUp).
 	inFlightM sync.Mutex // protects inFlight and SetReadDeadline
-	inFlight  uint32
+	inFlight  int32
 
 	id uint32
 
@@ -258,6 +260,12 @@ func (c *client) String() string {
 func (c *client) inFlightUp() error {
 	c.inFlightM.Lock()
 	c.inFlight++
+	if c.inFlight <= 0 {
+		// the response to this request has already been received and
+		// counted, nothing new to wait for
+		c.inFlightM.Unlock()
+		return nil
+	}
 	// we expect that at least the last request can be completed within readTimeout
 	if err := c.conn.SetReadDeadline(time.Now().Add(c.readTimeout)); err != nil {
 		c.inFlightM.Unlock()
@@ -781,7 +789,10 @@ func (c *client) MarshalJSON() ([]byte, error) {
 	}
 
 	c.inFlightM.Lock()
-	inFlight := c.inFlight
+	inFlight := uint32(0)
+	if c.inFlight > 0 {
+		inFlight = uint32(c.inFlight)
+	}
 	c.inFlightM.Unlock()
 
 	// if conn is nil then we don't want to panic. So just get the addresses if conn is not nil
